@@ -107,6 +107,18 @@ def _flat(keys):
     return out
 
 
+def _skip_divisions(node):
+    """Intermediate nodes of tree reductions hold partial aggregates, not collections: their `divisions` only
+    carry the partition count (nothing consumes the values).  Their partition count is still checked."""
+    from dask_expr._reductions import Chunk
+
+    from dask_expr._expr import Fused
+
+    if isinstance(node, Fused):
+        return _skip_divisions(node.exprs[0])
+    return isinstance(node, Chunk) or type(node).__name__ in ("TreeReduce", "ShuffleReduce", "GroupByChunk", "GroupByApplyConcatApply")
+
+
 def plan_problem(expr):
     """First (deepest) node of a lowered plan whose reported structure is not truthful.
     -> None | (node class, what, detail)"""
@@ -116,9 +128,15 @@ def plan_problem(expr):
         g = dict(expr.__dask_graph__())
     except Exception:  # noqa: BLE001  (C09's business)
         return None
+    todo = []
     for node in _subnodes(expr):
         try:
             meta = node._meta
+        except Exception:  # noqa: BLE001  (helper nodes such as _DelayedExpr are not collections)
+            continue
+        if not _is_frame(meta):
+            continue
+        try:
             np_ = node.npartitions
             divs = node.divisions
         except Exception as ex:  # noqa: BLE001
@@ -127,21 +145,31 @@ def plan_problem(expr):
             keys = _flat(node.__dask_keys__())
         except Exception:  # noqa: BLE001
             continue
-        gg = g
         if not all(k in g for k in keys):
             try:
-                gg = dict(node.__dask_graph__())
+                for k, v in node.__dask_graph__().items():
+                    g.setdefault(k, v)
             except Exception:  # noqa: BLE001
                 continue
-        try:
-            parts = list(dask.get(gg, keys))
-        except Exception:  # noqa: BLE001  (execution failures belong to C01/C02)
+        todo.append((node, np_, divs, keys))
+    try:
+        allparts = dask.get(g, [t[3] for t in todo])
+    except Exception:  # noqa: BLE001  (execution failures belong to C01/C02/C14): fall back to node-by-node
+        allparts = []
+        for t in todo:
+            try:
+                allparts.append(dask.get(g, t[3]))
+            except Exception:  # noqa: BLE001
+                allparts.append(None)
+    for (node, np_, divs, keys), parts in zip(todo, allparts):
+        if parts is None:
             continue
+        parts = list(parts)
         if len(parts) != np_:
             return (type(node).__name__, "npartitions", f"{type(node).__name__}: {len(parts)} computed partitions, npartitions={np_}")
         if len(divs) != np_ + 1:
             return (type(node).__name__, "divisions-length", f"{type(node).__name__}: {len(divs)} divisions for npartitions={np_}")
-        if not _is_frame(meta):
+        if _skip_divisions(node):
             continue
         if any(d is None for d in divs) or any(isinstance(d, float) and np.isnan(d) for d in divs):
             continue  # unknown divisions claim nothing
@@ -169,6 +197,9 @@ def length_problem(q, opt_len_only=False):
     whole = pd.concat(parts) if len(parts) else None
     rl = e2e.run_or_err(lambda: len(q))
     if rl[0] == "err":
+        rd = e2e.run_or_err(lambda: len((q.index if hasattr(q, "index") else q).compute()))
+        if rd[0] == "err" and rd[1] == rl[1]:
+            return None  # the optimised DATA path fails the same way: not a metadata-path problem (C01/C14)
         return (f"len-raised:{rl[1]}", f"len() raised {rl[1]}: {rl[2]}")
     if rl[1] != n:
         return ("len", f"len() = {rl[1]}, computed data has {n} rows")
@@ -258,6 +289,8 @@ DED_OPS = {
     "reset_index": lambda x, k: x.reset_index(drop=True),
     "set_index_a": lambda x, k: x.set_index("a"),
     "sort_values": lambda x, k: x.sort_values("a"),
+    "set_index_parts": lambda x, k: x.set_index("a").partitions[[0, 2]] if x.npartitions > 2 else x.set_index("a"),
+    "set_index_parts_rev": lambda x, k: x.set_index("a").partitions[[1, 0]] if x.npartitions > 2 else x.set_index("a"),
     "shuffle": lambda x, k: x.shuffle("b", shuffle_method="tasks"),
     "concat_mono": lambda x, k: _concat_mono(x, k),
     "concat_interleave": lambda x, k: _concat_interleave(x, k),
@@ -349,9 +382,9 @@ MUST_RUN_PROGRAMS = ["head3/id", "tail2/id", "repart5/id", "repart2/id", "set_in
 def program_cases(ctx, broken):
     progs = programs.valid_programs(2, "any")
     must = [p for p in progs if p.name in MUST_RUN_PROGRAMS]
-    n = 70 if ctx.quick else 1200
+    n = 30 if ctx.quick else 1200
     sel = plans.seeded_slice(ctx, progs, n)
-    layouts = [0, 3] if ctx.quick else list(range(len(plans.LAYOUTS)))
+    layouts = [0] if ctx.quick else list(range(len(plans.LAYOUTS)))
     out = []
     for p in must + sel:
         for lay in layouts if p in must or not ctx.quick else [ctx.rng.randrange(len(plans.LAYOUTS))]:
@@ -377,15 +410,31 @@ def run_case(case):
         lp = length_problem(q)
         if lp:
             what, detail = lp
-            return ({"check": "rowcount", "what": what, "plan": _plan_shape(q)}, detail)
+            return (_rowcount_sig(q, what), detail)
     return None
+
+
+def _rowcount_sig(q, what):
+    """symptom x the operators on the spine of the logical plan below any partition selection x the
+    shape of the selection (none / ascending / reordered / repeated)"""
+    from dask_expr._expr import Partitions
+
+    sel = "none"
+    for n in q.expr.walk():
+        if isinstance(n, Partitions):
+            shape = c11._sel_shape(list(n.partitions))
+            sel = shape if shape in ("repeated", "reordered") else "ascending"
+            break
+    spine = [x for x in _plan_shape(q).split("/") if x != "Partitions"]
+    return {"check": "rowcount", "what": what, "reader": spine[-1], "selection": sel,
+            "through": "/".join(spine[:-1]) or "-"}
 
 
 def _plan_shape(q):
     """classes on the spine of the logical plan (signature of a row-count failure)"""
     names = []
     e = q.expr
-    for _ in range(4):
+    for _ in range(5):
         names.append(type(e).__name__)
         deps = e.dependencies()
         if not deps:
@@ -398,7 +447,7 @@ def _plan_shape(q):
 def rowcount_cases(ctx):
     cases = []
     for src in ("from_pandas", "from_pandas_one", "from_array", "read_parquet", "read_parquet_arrow", "read_parquet_div", "from_map", "read_csv"):
-        for chain in ("id", "col_a", "add1", "bcast_series", "bcast_rev", "filter", "assign_series"):
+        for chain in ("id", "col_a", "add1", "bcast_series", "bcast_rev", "filter", "assign_series", "binop_filters"):
             for P in (None, [1, 2], [0, 0], [2, 0], [0, 2]):
                 cases.append({"kind": "rowcount", "source": src, "chain": chain, "P": P})
     return cases
@@ -406,6 +455,8 @@ def rowcount_cases(ctx):
 
 c11.CHAINS.setdefault("bcast_rev", (lambda x: x.a.max() - x.a, False, False))
 c11._MECHANISM.setdefault("bcast_rev", "broadcast-operand")
+c11.CHAINS.setdefault("binop_filters", (lambda x: x.a[x.a > 4] + x.v[x.v < 120], False, False))
+c11._MECHANISM.setdefault("binop_filters", "elemwise")
 
 
 def run_rowcount(case):
@@ -423,10 +474,7 @@ def run_rowcount(case):
     lp = length_problem(q[1])
     if lp:
         what, detail = lp
-        sel = "none" if case["P"] is None else c11._sel_shape(case["P"])
-        sel = sel if sel in ("none", "repeated", "reordered") else "ascending"
-        return ({"check": "rowcount", "what": what, "source": case["source"].split("_")[0] + ("_parquet" if "parquet" in case["source"] else ""),
-                 "mechanism": c11._MECHANISM.get(case["chain"]) or "none", "selection": sel}, detail)
+        return (_rowcount_sig(q[1], what), detail)
     return None
 
 
@@ -437,10 +485,10 @@ def _all_cases(ctx, broken):
     if ctx.quick:
         idx = list(range(len(ded)))
         ctx.rng.shuffle(idx)
-        ded = [ded[i] for i in sorted(idx[: (260 if not broken else 600)])]
+        ded = [ded[i] for i in sorted(idx[: (170 if not broken else 600)])]
         idx = list(range(len(rc)))
         ctx.rng.shuffle(idx)
-        rc = [rc[i] for i in sorted(idx[:110])]
+        rc = [rc[i] for i in sorted(idx[:90])]
     return MUST_RUN + prog + ded + rc
 
 
@@ -452,6 +500,13 @@ MUST_RUN = [
     {"kind": "dedicated", "index": "int", "npartitions": 4, "op": "repart_more"},              # D14
     {"kind": "dedicated", "index": "int", "npartitions": 2, "op": "repart_more"},
     {"kind": "source", "source": "from_array", "chain": "id", "P": [1, 2]},                    # D4
+    # one witness per mechanism that failed while this check was developed
+    {"kind": "source", "source": "read_parquet_div", "chain": "col_a", "P": [3, 1]},           # FusedIO, reordered selection
+    {"kind": "rowcount", "source": "from_pandas", "chain": "col_a", "P": [0, 0]},              # FromPandas._get_lengths
+    {"kind": "rowcount", "source": "read_parquet", "chain": "col_a", "P": [1, 2]},             # ReadParquet._get_lengths
+    {"kind": "rowcount", "source": "read_parquet_arrow", "chain": "col_a", "P": [1, 2]},
+    {"kind": "rowcount", "source": "from_pandas", "chain": "binop_filters", "P": None},        # Len(x + y) = Len(x)
+    {"kind": "dedicated", "index": "int", "npartitions": 4, "op": "set_index_parts_rev"},      # _SetIndexPost culling
 ]
 
 
